@@ -105,6 +105,36 @@ def kbestRun (starts : List Nat) (lq overlap : Nat) (minlen : Option Nat) (maxle
       else
         (starts.getD e 0, e) :: kbestRun starts lq overlap minlen maxlen k fuel (blockSlots slots overlap (starts.getD e 0) e) (ki + 1)
 
+/-- the same loop with an additional stopping rule, as used by `best_matches` (stop when a candidate value
+exceeds `max_rangefactor` times the first one) and `best_matches_knee` (stop when the knee detector fires):
+`stop hist ki v` is asked for every candidate value `v`, in the order of the code (after the "no more
+candidates" test, before the candidate is examined); `hist` holds the earlier candidates as `(ki, value)`,
+most recent first, which is all the state those rules keep -/
+def kbestRunStop (stop : List (Nat × Cost) → Nat → Cost → Bool) (starts : List Nat) (lq overlap : Nat)
+    (minlen : Option Nat) (maxlen : Option Nat) (k : Option Nat) :
+    Nat → List (Slot Cost) → Nat → List (Nat × Cost) → List (Nat × Nat)
+  | 0, _, _, _ => []
+  | fuel+1, slots, ki, hist =>
+    if kReached k ki then [] else
+    match firstMin slots with
+    | none => []
+    | some (e, v) =>
+      if stop hist ki v then [] else
+      if candRejected slots overlap minlen maxlen (starts.getD e 0) e then
+        kbestRunStop stop starts lq overlap minlen maxlen k fuel (slots.set e Slot.rejected) ki ((ki, v) :: hist)
+      else
+        (starts.getD e 0, e) :: kbestRunStop stop starts lq overlap minlen maxlen k fuel
+          (blockSlots slots overlap (starts.getD e 0) e) (ki + 1) ((ki, v) :: hist)
+
+/-- the stopping rule of `best_matches(max_rangefactor)`, on internal (squared) values: with the factor's square
+given as `num/den`, stop at a candidate whose value exceeds `num/den` times the value of the most recent candidate
+that was examined while nothing had been yielded yet (`if ki == 0: max_dist = v * factor elif v > max_dist: break`) -/
+def rangeStop (num den : Nat) (hist : List (Nat × Cost)) (ki : Nat) (v : Cost) : Bool :=
+  if ki = 0 then false else
+  match hist.find? (fun p => p.1 == 0) with
+  | some (_, Cost.fin f) => (match v with | Cost.fin x => decide (f * num < x * den) | Cost.inf => true)
+  | _ => false
+
 /-- initial working copy: `matching[:min(len(query) - 1, overlap)] = maxv` -/
 def kbestInit (vals : List Cost) (lq overlap : Nat) : List (Slot Cost) :=
   vals.zipIdx.map fun (v, i) =>
